@@ -115,8 +115,13 @@ def _wrap_method(cls, name, kind, creates):
         try:
             out = orig(self, *a, **kw)
         except Exception as e:
-            if kind == "seek":  # running off the end of an animation is part of normal operation
+            if kind == "seek" and isinstance(e, EOFError):
+                # running off the end of an animation is part of normal operation
                 rec.events.append(f"{kind}!{type(e).__name__} {recv}")
+            else:
+                # a Pillow call that fails by itself (truncated file, unknown format) is the same event as
+                # the fault plan "this call raises"
+                rec.events.append(f"FAULT {kind} {recv}")
             raise
         finally:
             rec.depth -= 1
